@@ -243,7 +243,15 @@ func (c *simConn) ReadFrom(p []byte) (int, net.Addr, error) {
 	select {
 	case pkt := <-c.rq:
 		n := copy(p, pkt.data)
-		return n, pkt.from, nil
+		from := pkt.from
+		if u, ok := from.(*net.UDPAddr); ok {
+			// as a socket read does: a fresh address, IPv4 in its 4-byte form (the
+			// addresses sessions are dialled with are usually in the 16-byte form)
+			if ip4 := u.IP.To4(); ip4 != nil {
+				from = &net.UDPAddr{IP: ip4, Port: u.Port, Zone: u.Zone}
+			}
+		}
+		return n, from, nil
 	case <-c.closed:
 		return 0, nil, net.ErrClosed
 	case <-c.failRead:
